@@ -382,6 +382,7 @@ RENAME_CONFIGS = [
     ("copies-harder", dict(find_copies_harder=True)),
     ("thr30-rewrite50", dict(rename_threshold=30, rewrite_threshold=50)),
     ("thr100", dict(rename_threshold=100)),
+    ("thr60-rewrite80", dict(rename_threshold=60, rewrite_threshold=80)),
     ("maxfiles0-harder-rewrite60", dict(max_files=0, find_copies_harder=True, rewrite_threshold=60)),
 ]
 
@@ -984,6 +985,22 @@ def _part_c(ctx, item):
     if shard == 0:
         for m in IS_TREE_MODES:
             check_is_tree(ctx, m)
+    # in-place modifications at every similarity the document families offer (rewrite detection splits a modify into
+    # delete + add and may match the halves back together), alone and next to a rename target of the old content
+    fam = {kv: idx for idx, kv in G.DOC_FAMILY.items()}
+    n = 0
+    for k in (0, 1):
+        for v1 in G.DOC_VARIANTS:
+            for v2 in G.DOC_VARIANTS:
+                if v1 == v2:
+                    continue
+                for extra in ([], [(b"c", M.REG, fam[(k, v1)])], [(b"c", M.REG, fam[(k, G.DOC_VARIANTS[(G.DOC_VARIANTS.index(v1) + 1) % len(G.DOC_VARIANTS)])])]):
+                    n += 1
+                    if n % nshards != shard:
+                        continue
+                    case = {"A": [(b"a", M.REG, fam[(k, v1)]), (b"keep", M.REG, 0)], "B": [(b"a", M.REG, fam[(k, v2)]), (b"keep", M.REG, 0)] + extra, "perm": n}
+                    ctx.label("directed-in-place-similarity")
+                    check_pair(ctx, _ENV, case, use_git=False)
 
 
 # ---------------------------------------------------------------------------
